@@ -341,3 +341,9 @@ PROPS["C13"]["thorough"].append({"variant": "default", "cases": 1500000, "params
 PROPS["C13"]["floors"]["any"].update({"declarative_histories": 10000, "family_congruence_chain": 1000})
 
 PROPS["C07"]["floors"]["any"]["queries_with_uninserted_term"] = 500
+
+# C08 with a non-trivial analysis attached (the C14 world evaluates the structural invariants after every call as well)
+PROPS["C08"]["quick"].append({"variant": "default", "cases": 4000, "worker_prop": "C14", "timeout": 900})
+PROPS["C08"]["quick"].append({"variant": "checks", "cases": 1500, "worker_prop": "C14", "timeout": 900})
+PROPS["C08"]["thorough"].append({"variant": "default", "cases": 100000, "params": {"case_timeout": 120}, "worker_prop": "C14", "timeout": 3400})
+PROPS["C08"]["thorough"].append({"variant": "checks", "cases": 20000, "params": {"case_timeout": 120}, "worker_prop": "C14", "timeout": 3400})
